@@ -28,7 +28,13 @@ def main():
         sh("git -C %s apply %s" % (REPO, patch))
         try:
             t0 = time.time()
-            r = sh("cd %s && VERIF_SEED=%s bin/check %s --tier quick" % (V, os.environ.get("VERIF_SEED", "1"), pid), timeout=1800)
+            try:
+                r = sh("cd %s && VERIF_SEED=%s bin/check %s --tier quick" % (V, os.environ.get("VERIF_SEED", "1"), pid), timeout=1500)
+            except subprocess.TimeoutExpired:
+                sh("pkill -f 'out/%s/quick/bin'" % pid)
+                meta["detection"] = dict(check="bin/check %s --tier quick" % pid, detected=False, status="check timed out")
+                rows.append((name, pid, "missed (timeout)", ""))
+                continue
             viol = [l for l in r.stdout.splitlines() if l.startswith("VIOLATION")]
             first = next((l for l in r.stdout.splitlines() if "rejected:" in l), "")
             m = re.search(r'"op": "([\w.]+)"', first)
@@ -40,11 +46,14 @@ def main():
             sh("git -C %s checkout -- ." % REPO)
         json.dump(meta, open(os.path.join(d, "meta.json"), "w"), indent=1)
         print(rows[-1], flush=True)
-    with open(os.path.join(V, "seeded", "RESULTS.md"), "w") as f:
-        f.write("# Seeded changes vs. checks (quick tier, VERIF_SEED=%s)\n\n| seeded change | property | outcome | first rejected op | what was changed |\n|---|---|---|---|---|\n" % os.environ.get("VERIF_SEED", "1"))
-        for name, pid, res, op in rows:
-            meta = json.load(open(os.path.join(V, "seeded", name, "meta.json")))
-            f.write("| %s | %s | %s | %s | %s |\n" % (name, pid, res, op, meta.get("summary", "").replace("|", "/")[:300]))
+    with open(os.path.join(V, "seeded", "RESULTS.md"), "w") as f:     # aggregate over ALL seeded changes (from their meta.json)
+        f.write("# Seeded changes vs. checks (quick tier)\n\n| seeded change | property | outcome | first rejected op | what was changed |\n|---|---|---|---|---|\n")
+        for d in sorted(glob.glob(os.path.join(V, "seeded", "C*"))):
+            meta = json.load(open(os.path.join(d, "meta.json")))
+            det = meta.get("detection", {})
+            res = "DETECTED" if det.get("detected") else ("not run" if not det else "missed (%s)" % (det.get("status") or "rc=%s" % det.get("exit_code")))
+            f.write("| %s | %s | %s | %s | %s |\n" % (os.path.basename(d), meta.get("property"), res, det.get("first_rejected_op") or "",
+                                                 meta.get("summary", "").replace("|", "/")[:300]))
     print("written seeded/RESULTS.md")
 
 
